@@ -545,7 +545,9 @@ class Corners(Part):
         return st.fixed_dictionaries({
             "kind": st.sampled_from(["name", "name", "nested", "nested_rep",
                                      "nested_same_slot", "nested_unfilled",
-                                     "fill_after_extend"]),
+                                     "fill_after_extend",
+                                     "filler_after_failure",
+                                     "filler_after_missing_macro"]),
             "name": st.sampled_from(["m", "a-b", "a.b", "a_b", "x.y-z", "M1",
                                      "a:b", "é"]),
             "via": st.sampled_from(["macros", "getitem", "var"]),
@@ -561,6 +563,23 @@ class Corners(Part):
 
     def build(self, case):
         k, n = case["kind"], case["name"]
+        if k in ("filler_after_failure", "filler_after_missing_macro"):
+            # a use that fails (inside the macro, or before it is found) and
+            # whose failure an enclosing tal:on-error handles: the fillers
+            # it offered are gone with it - a later use of a macro that has
+            # a slot of that name keeps its default
+            lib = ('<div metal:define-macro="%s">${1 / 0}<i metal:define-slot'
+                   '="x">dx</i></div><p metal:define-macro="leaf">(<i metal:'
+                   'define-slot="x">leaf-x</i>)</p>' % n)
+            pre = "macros" if case["lib"] == "same" else "lib.macros"
+            target = "%s['%s']" % (pre, n) \
+                if k == "filler_after_failure" else "nosuchmacro"
+            caller = ('<div tal:on-error="string:err"><x metal:use-macro="%s">'
+                      '<b metal:fill-slot="x">X</b></x></div>' % target
+                      + ('<x metal:use-macro="%s[\'leaf\']"/>' % pre)
+                      * case["n"])
+            want = "<div>err</div>" + "<p>(<i>leaf-x</i>)</p>" * case["n"]
+            return lib, caller, want
         if k == "fill_after_extend":
             # a filler written AFTER an extend-macro element (inside another
             # filler) belongs to the macro it is written for
